@@ -798,6 +798,7 @@ pub fn generate(profile: &Profile, seed: u64) -> Trace {
         family: p.name.to_string(),
         use_new: false,
         derived: false,
+        build_fault: None,
     };
     let mut cfg = cfg;
     // a third of the runs use the processor() generated by the derive macro, a few the deprecated constructor
@@ -896,6 +897,8 @@ pub fn generate(profile: &Profile, seed: u64) -> Trace {
 /// Scenario for the C14 fault sweep: a short session that contains, by
 /// construction, one of the interesting calls (chosen by `kind`), surrounded by
 /// random typing, and followed by a recovery tail on which all oracles run again.
+pub const N_SCENARIO_KINDS: usize = 16;
+
 pub fn scenario(seed: u64, kind: usize) -> Trace {
     let mut rng = Rng::new(seed);
     let base = profile("scen").unwrap();
@@ -931,7 +934,7 @@ pub fn scenario(seed: u64, kind: usize) -> Trace {
         prompt: if rng.chance(1, 4) { Some(rng.below(PROMPTS.len())) } else { None },
         ret: Ret::Parse,
     };
-    match kind % 10 {
+    match kind % N_SCENARIO_KINDS {
         0 => {
             // Enter with handler output
             ev.push(Event::new(Ev::Handler(out)));
@@ -1004,6 +1007,61 @@ pub fn scenario(seed: u64, kind: usize) -> Trace {
             push_str(&mut ev, " \"é b\" x");
             push_str(&mut ev, "\r");
         }
+        10 => {
+            // completion in a tight buffer
+            t.cfg.cmd_cap = rng.range(3, 9);
+            let names = SETS[set].names;
+            let n = rng.pick(names);
+            let first: String = n.chars().take(rng.range(1, 2)).collect();
+            push_str(&mut ev, &first);
+            push_str(&mut ev, "\t");
+            push_str(&mut ev, "\x1b[D\t");
+            push_str(&mut ev, "\r");
+        }
+        11 => {
+            // history eviction and duplicates in a small history
+            t.cfg.hist_cap = rng.range(4, 12);
+            t.cfg.cmd_cap = rng.range(4, 16);
+            for l in ["ab", "cd", "ab", "efg", "cd"] {
+                push_str(&mut ev, l);
+                push_str(&mut ev, "\n");
+            }
+            push_str(&mut ev, "\x1b[A\x1b[A\x1b[A\x1b[B\x1b[B\x1b[B");
+        }
+        12 => {
+            // every write path, multi-line, from Cli::write and from the handler
+            let calls: Vec<WCall> = WKind::ALL.iter().map(|k| WCall { kind: *k, text: rng.pick(OUT_TEXTS).to_string() }).collect();
+            push_str(&mut ev, "ab");
+            ev.push(Event::new(Ev::Write(calls.clone(), Ret::Ok)));
+            ev.push(Event::new(Ev::Handler(HScript { calls, prompt: None, ret: Ret::Parse })));
+            push_str(&mut ev, "\r");
+        }
+        13 => {
+            // handler changes the prompt, writes output and returns a parse error
+            ev.push(Event::new(Ev::Handler(HScript {
+                calls: vec![WCall { kind: *rng.pick(&WKind::ALL), text: "partial".into() }],
+                prompt: Some(rng.below(PROMPTS.len())),
+                ret: Ret::Parse,
+            })));
+            push_str(&mut ev, "nosuch 1\r");
+            push_str(&mut ev, *rng.pick(&others[..]));
+            push_str(&mut ev, " --zzz\n");
+        }
+        14 => {
+            // malformed input around a submission
+            for b in [0xc3u8, 0x28, 0xe2, 0x82, 0xed, 0xa0, 0x80, b'x', 0xf0, 0x9f, 0x98, 0x80, b'\r'] {
+                ev.push(Event::rx(b));
+            }
+            push_str(&mut ev, "\x1b[A\r");
+        }
+        15 => {
+            // empty and multi-byte prompts, blank lines, Enter in all four terminator styles
+            ev.push(Event::new(Ev::Prompt(*rng.pick(&[1usize, 4, 5]))));
+            push_str(&mut ev, "\r");
+            push_str(&mut ev, "  \n");
+            push_str(&mut ev, "x\r\n");
+            push_str(&mut ev, "y\n\r");
+        }
         _ => {
             // application-made error from the handler / from the write closure
             let mut h = out;
@@ -1028,6 +1086,6 @@ pub fn scenario(seed: u64, kind: usize) -> Trace {
     events.extend(ev);
     events.extend(tail);
     t.events = events;
-    t.cfg.family = format!("scen{}", kind % 10);
+    t.cfg.family = format!("scen{}", kind % N_SCENARIO_KINDS);
     t
 }
